@@ -32,6 +32,7 @@ type site struct {
 	loop   int // pc of the first instruction of the innermost enclosing retry loop; -1: none
 	inCond bool
 	skip   bool // a second spelling of an instruction already listed (reload in a `for !CAS` body)
+	tag    string
 }
 
 type walker struct {
@@ -40,6 +41,7 @@ type walker struct {
 	other    []string            // shared-memory constructs the instruction type cannot express
 	defs     map[string]ast.Expr // local variable -> the expression last assigned to it
 	soleExit map[*ast.IfStmt]bool
+	loopDefs map[string]bool      // variables assigned inside the current retry loop (nil: not in one)
 	reload   map[*ast.ForStmt]int // `for !CAS { reload }` loops -> pc of the Load before them
 	pc       int                  // instructions listed so far
 	skipping bool                 // inside the body of a `for !CAS(x, ..) { x = Load() }` loop
@@ -81,7 +83,14 @@ func (w *walker) expr(e ast.Expr, loop int, inCond bool) {
 		}
 		if isSel {
 			if id, ok := sel.X.(*ast.Ident); ok && id.Name == w.holder && atomicMethods[sel.Sel.Name] {
-				w.sites = append(w.sites, site{x, sel.Sel.Name, loop, inCond, w.skipping})
+				tag := ""
+				switch {
+				case sel.Sel.Name == "CompareAndSwap" && len(x.Args) == 2:
+					tag = w.casTag(x)
+				case sel.Sel.Name == "Store" && len(x.Args) == 1:
+					tag = w.fnTag(x.Args[0])
+				}
+				w.sites = append(w.sites, site{x, sel.Sel.Name, loop, inCond, w.skipping, tag})
 				if !w.skipping {
 					w.pc++
 				}
@@ -114,6 +123,7 @@ func (w *walker) expr(e ast.Expr, loop int, inCond bool) {
 		w.expr(x.Value, loop, inCond)
 	case *ast.FuncLit:
 		w.other = append(w.other, "func-literal")
+		w.stmts(x.Body.List, -1)
 	case *ast.TypeAssertExpr:
 		w.expr(x.X, loop, inCond)
 	}
@@ -190,6 +200,9 @@ func (w *walker) stmt(s ast.Stmt, loop int) {
 			for i, l := range x.Lhs {
 				if id, ok := l.(*ast.Ident); ok {
 					w.defs[id.Name] = x.Rhs[i]
+					if w.loopDefs != nil {
+						w.loopDefs[id.Name] = true
+					}
 				}
 			}
 		}
@@ -229,26 +242,68 @@ func (w *walker) stmt(s ast.Stmt, loop int) {
 		w.stmts(x.List, loop)
 	case *ast.ForStmt:
 		if start, ok := w.reload[x]; ok {
+			// the loaded variable counts as assigned in the loop; the new value must be an
+			// expression over it written in the condition itself (evaluated on every attempt)
+			not := x.Cond.(*ast.UnaryExpr)
+			old := w.holderCall(not.X, "CompareAndSwap").Args[0].(*ast.Ident)
+			saved := w.loopDefs
+			w.loopDefs = map[string]bool{old.Name: true}
 			w.expr(x.Cond, start, true) // the CAS: on failure back to the (re)Load
-			w.skipping = true           // the reload is the Load already listed at `start`
+			w.loopDefs = saved
+			w.skipping = true // the reload is the Load already listed at `start`
 			w.stmts(x.Body.List, start)
 			w.skipping = false
 			return
 		}
 		w.stmt(x.Init, loop)
 		if x.Cond != nil {
+			// not a spelling of the retry loop: the instruction list cannot express it (the tie
+			// breaks), but every atomic call in it is still found, so that it gets its yield
 			w.other = append(w.other, "for-with-condition")
+			w.expr(x.Cond, -1, false)
 		}
 		w.markSoleExit(x)
+		saved := w.loopDefs
+		w.loopDefs = map[string]bool{}
 		w.stmts(x.Body.List, w.pc)
+		w.loopDefs = saved
 		w.stmt(x.Post, loop)
 	case *ast.RangeStmt:
 		w.other = append(w.other, "range")
-		w.stmts(x.Body.List, loop)
-	case *ast.GoStmt, *ast.DeferStmt, *ast.SelectStmt, *ast.SendStmt:
-		w.other = append(w.other, fmt.Sprintf("%T", s))
+		w.expr(x.X, loop, false)
+		w.stmts(x.Body.List, -1)
+	case *ast.GoStmt:
+		w.other = append(w.other, "go")
+		w.expr(x.Call, -1, false)
+	case *ast.DeferStmt:
+		w.other = append(w.other, "defer")
+		w.expr(x.Call, -1, false)
+	case *ast.SendStmt:
+		w.other = append(w.other, "chan-send")
+		w.expr(x.Value, loop, false)
+	case *ast.SelectStmt:
+		w.other = append(w.other, "select")
+		w.stmts(x.Body.List, -1)
+	case *ast.CommClause:
+		w.stmt(x.Comm, -1)
+		w.stmts(x.Body, -1)
 	case *ast.SwitchStmt:
 		w.other = append(w.other, "switch")
+		w.stmt(x.Init, loop)
+		w.expr(x.Tag, loop, false)
+		w.stmts(x.Body.List, -1)
+	case *ast.TypeSwitchStmt:
+		w.other = append(w.other, "type-switch")
+		w.stmts(x.Body.List, -1)
+	case *ast.CaseClause:
+		for _, e := range x.List {
+			w.expr(e, -1, false)
+		}
+		w.stmts(x.Body, -1)
+	case *ast.LabeledStmt:
+		w.stmt(x.Stmt, loop)
+	case *ast.IncDecStmt:
+		w.expr(x.X, loop, false)
 	}
 }
 
@@ -304,6 +359,43 @@ func (w *walker) markSoleExit(f *ast.ForStmt) {
 	}
 }
 
+// casTag names the pure function of a CompareAndSwap in a retry loop.  The new value must be
+// derived, inside the loop (on every attempt), from the very pointer that is compared: a value
+// computed before the loop, or from something else, is a different program (a retry would
+// install a logger derived from a stale snapshot).
+func (w *walker) casTag(c *ast.CallExpr) string {
+	old, ok := c.Args[0].(*ast.Ident)
+	if !ok || w.loopDefs == nil || !w.loopDefs[old.Name] {
+		return "FComparedValueNotLoadedInLoop"
+	}
+	e := c.Args[1]
+	for i := 0; i < 4; i++ {
+		id, ok := e.(*ast.Ident)
+		if !ok {
+			break
+		}
+		if !w.loopDefs[id.Name] {
+			return "FNewValueComputedOutsideLoop"
+		}
+		d, ok := w.defs[id.Name]
+		if !ok {
+			break
+		}
+		e = d
+	}
+	mentions := false
+	ast.Inspect(e, func(n ast.Node) bool {
+		if id, ok := n.(*ast.Ident); ok && id.Name == old.Name {
+			mentions = true
+		}
+		return true
+	})
+	if !mentions {
+		return "FNewValueNotFromLoaded"
+	}
+	return w.fnTag(e)
+}
+
 // fnTag names the pure function whose result is stored: the new logger expression (a local
 // variable is followed to the expression assigned to it).
 func (w *walker) fnTag(e ast.Expr) string {
@@ -340,12 +432,12 @@ func instrs(w *walker) []string {
 		case "Load":
 			out = append(out, "ILoad")
 		case "Store":
-			out = append(out, "IStore "+w.fnTag(st.call.Args[0]))
+			out = append(out, "IStore "+st.tag)
 		case "CompareAndSwap":
 			if st.loop >= 0 && st.inCond {
-				out = append(out, fmt.Sprintf("ICas %s %d", w.fnTag(st.call.Args[1]), st.loop))
+				out = append(out, fmt.Sprintf("ICas %s %d", st.tag, st.loop))
 			} else {
-				out = append(out, "ICasOutsideRetryLoop "+w.fnTag(st.call.Args[1]))
+				out = append(out, "ICasOutsideRetryLoop "+st.tag)
 			}
 		default:
 			out = append(out, "IUnsupported_"+st.method)
